@@ -177,6 +177,12 @@ func (c *crashRun) onEvent(ev, file string, n int64) {
 	}
 	name := rel(c.base, file)
 	k := len(c.events)
+	if ev == "open" {
+		// size of the file at open time (0 when it is created by this call)
+		if st, err := os.Stat(file); err == nil {
+			n = st.Size()
+		}
+	}
 	rec := eventRec{Kind: "event", K: k, Ev: ev, File: name, N: n, OpIdx: c.opIdx}
 	if c.snap && (c.filter == nil || c.filter(ev)) {
 		rec.Files = c.fileSizes()
